@@ -12,4 +12,8 @@ INVARIANT ExpansionFinite_
 INVARIANT NominalDensityPositive_
 INVARIANT NominalPseudoDensityPositive_
 INVARIANT NominalExpansionFinite_
+INVARIANT DerivedFinite_
+INVARIANT NominalDerivedFinite_
+INVARIANT UnitsAgree_
+INVARIANT InstanceIndependent_
 INVARIANT RangeCovered_
